@@ -84,7 +84,12 @@ META = {
         "R14: every option-dependent deprecation notice that exists anywhere (builder or a front end: `<const> in <config>.<field>` guarding a MystWarnings.DEPRECATED emission, made directly or through a package helper) "
         "is decided in BOTH front-end parse functions on the config variable handed to the call that obtains the parser the document is rendered with, with no later assignment to it. "
         "The per-field update is located by role (the function that calls validate_field, reached from merge_file_level directly or through one or two "
-        "module-level helpers with parameters substituted), so splitting merge_file_level into helpers keeps every rule deciding."
+        "module-level helpers with parameters substituted), so splitting merge_file_level into helpers keeps every rule deciding. "
+        "R15: the handler around the per-field validate_field of merge_file_level covers every exception class a validator can raise on a front-matter value: a handler for "
+        "Exception covers everything; a narrower one is compared with the explicit raise statements of all validators (custom and combinator closures) and with the implicit "
+        "AttributeError of a method/attribute use of the validated value that no type test or delegated validator precedes. "
+        "R16: in the docutils builder, every condition on a value read from the settings object that decides whether it reaches the constructor is an identity/equality/type test "
+        "against the not-supplied sentinel, never a truthiness test (False, 0 and empty collections are valid explicit values)."
     ),
     "not_decided": (
         "which markdown-it parser object a document is rendered with (a cross-parse parser cache keyed on a lossy projection of the configuration, e.g. repr(config), is "
@@ -1003,6 +1008,45 @@ def _pure_helper(call: ast.Call):
     return callee, ret
 
 
+def _shallow_copy_of(e: ast.AST) -> ast.expr | None:
+    """``a`` when ``e`` is ``dict(a)``, ``a.copy()``, ``copy.copy(a)`` or ``{**a}``: a new dict with a's items."""
+    if isinstance(e, ast.Dict) and len(e.keys) == 1 and e.keys[0] is None:
+        return e.values[0]
+    if isinstance(e, ast.Call) and not e.keywords and not any(isinstance(a, ast.Starred) for a in e.args):
+        d = dotted(e.func) or ""
+        if d in ("dict", "copy.copy", "copy") and len(e.args) == 1:
+            return e.args[0]
+        if isinstance(e.func, ast.Attribute) and e.func.attr == "copy" and not e.args and d != "copy.copy":
+            return e.func.value
+    return None
+
+
+def _local_copy_source(upd: ast.Call) -> ast.expr | None:
+    """For ``m.update(...)`` as a statement of its own: the expression ``a`` when ``m`` is a local name whose only binding in the
+    function is ``m = <shallow copy of a>``, made earlier in the same statement list (so once per execution of the update,
+    and not shared with anything that outlives it)."""
+    m = upd.func.value
+    st = parent(upd)
+    if not (isinstance(m, ast.Name) and isinstance(st, ast.Expr)):
+        return None
+    fn = next((a for a in ancestors(upd) if isinstance(a, (ast.FunctionDef, ast.AsyncFunctionDef, ast.Lambda))), None)
+    if not isinstance(fn, (ast.FunctionDef, ast.AsyncFunctionDef)):
+        return None
+    a_ = fn.args
+    if m.id in {x.arg for x in a_.posonlyargs + a_.args + a_.kwonlyargs + [y for y in (a_.vararg, a_.kwarg) if y is not None]}:
+        return None
+    binds = [x for x in ast.walk(fn) if isinstance(x, ast.Name) and x.id == m.id and isinstance(x.ctx, (ast.Store, ast.Del))]
+    if len(binds) != 1:
+        return None
+    bst = parent(binds[0])
+    if not (isinstance(bst, ast.Assign) and len(bst.targets) == 1 and bst.targets[0] is binds[0]):
+        return None
+    block = next((v for _, v in ast.iter_fields(parent(st)) if isinstance(v, list) and any(x is st for x in v)), None)
+    if block is None or not any(x is bst for x in block) or [x is bst for x in block].index(True) > [x is st for x in block].index(True):
+        return None
+    return _shallow_copy_of(bst.value)
+
+
 def merge_operands(n: ast.AST, raw: set[str]):
     """Operands (in override order) when ``n`` builds a merged dict: ``{**a, **b}``, ``a | b`` or a pure helper returning one;
     the string "inplace" for ``a.update(b)``; None otherwise."""
@@ -1011,6 +1055,9 @@ def merge_operands(n: ast.AST, raw: set[str]):
     if isinstance(n, ast.BinOp) and isinstance(n.op, ast.BitOr) and not isinstance(parent(n), ast.Subscript) and _free_names(n) & raw and not _free_names(n) <= raw:
         return [n.left, n.right]
     if isinstance(n, ast.Call) and isinstance(n.func, ast.Attribute) and n.func.attr == "update" and any(_free_names(a) & raw for a in n.args) and not (_free_names(n.func.value) & raw):
+        src = _local_copy_source(n)
+        if src is not None and not n.keywords and len(n.args) == 1 and not isinstance(n.args[0], ast.Starred):
+            return [src, n.args[0]]  # m = dict(a); m.update(b)  ==  {**a, **b}
         return "inplace"
     if isinstance(n, ast.Call):
         ph = _pure_helper(n)
@@ -3642,7 +3689,187 @@ def r6_entry_points_funnel(corpus: Corpus, rep: Report, tier: str):
     rep.expect_min("C13.R6", 9, "post_init, validate_fields, validate_field, copy, 2x constructor, 2x handler, 2x omit filter")
 
 
-RULES = [r1_validator_types, r2_commit_after_validate, r3_no_raw_overwrite, r4_config_writers, r5_invalid_value_path, r6_entry_points_funnel, r7_short_circuit_consistency, r8_truthiness_for_none, r9_comma_lists_split_like_docutils, r10_str_is_not_a_container_of_str, r11_no_raw_conf_reads, r12_topmatter_block_as_markdown_delimits_it, r13_reparse_uses_file_level_config, r14_option_notices_use_the_document_config]
+# ---------------------------------------------------------------------------
+# R15 the front-matter handler covers what validators raise / R16 explicit falsy docutils settings
+
+
+def _value_param(f: FunctionInfo) -> str | None:
+    ps = f.params
+    return ps[2] if len(ps) >= 3 else None
+
+
+def _unchecked_attr_uses(f: FunctionInfo, vname: str) -> list[ast.Attribute]:
+    """``<value>.<attr>`` uses (non-dunder) that can be reached without passing a type test of the value or a
+    call that is handed the value (a delegated validator / constructor)."""
+    cfg = get_cfg(f)
+
+    def mentions_check(e: ast.AST) -> bool:
+        for c in ast.walk(e):
+            if isinstance(c, ast.Call):
+                if dotted(c.func) in ("isinstance", "callable", "hasattr") and c.args and isinstance(c.args[0], ast.Name) and c.args[0].id == vname:
+                    return True
+                if not (isinstance(c.func, ast.Attribute) and isinstance(c.func.value, ast.Name) and c.func.value.id == vname) and any(isinstance(a, ast.Name) and a.id == vname for a in c.args):
+                    return True
+        return False
+
+    def is_check(n) -> bool:
+        if isinstance(n, (tuple, str)):
+            return False
+        if isinstance(n, (ast.If, ast.While)):
+            return mentions_check(n.test)
+        if isinstance(n, ast.For):
+            return mentions_check(n.iter)
+        if isinstance(n, (ast.Try, ast.With, ast.FunctionDef, ast.AsyncFunctionDef, ast.ClassDef)):
+            return False
+        if isinstance(n, (ast.Assign, ast.AnnAssign, ast.AugAssign)) and any(isinstance(t, ast.Name) and t.id == vname for t in (n.targets if isinstance(n, ast.Assign) else [n.target])):
+            return True  # re-bound: no longer the raw value
+        return mentions_check(n)
+
+    out = []
+    for n in f.local_nodes():
+        if not (isinstance(n, ast.Attribute) and isinstance(n.value, ast.Name) and n.value.id == vname and isinstance(n.ctx, ast.Load)):
+            continue
+        if n.attr.startswith("__") and n.attr.endswith("__"):
+            continue
+        if any(pol and mentions_check(t) for t, pol in _context_facts(cfg, n)):
+            continue
+        st = cfg.stmt_of(n)
+        if cfg.paths_avoiding("ENTRY", st, lambda x: x is not st and is_check(x)):
+            out.append(n)
+    return out
+
+
+@rule("C13.R15")
+def r15_topmatter_handler_covers_validator_exceptions(corpus: Corpus, rep: Report, tier: str):
+    rep.rule("C13.R15", "the handler around merge_file_level's validate_field covers every exception class a validator can raise on a front-matter value (explicit raises; AttributeError of an attribute use on the unchecked value)")
+    mfl = corpus.func(f"{MAIN}:merge_file_level")
+    dcv = corpus.mod(DCV).name
+    for us in update_sites(corpus):
+        U, call, mod = us.U, us.call, us.U.module
+        tr = _enclosing_try(call)
+        if tr is None or not tr.handlers:
+            continue  # R5 reports the missing handler
+        hs = tr.handlers
+        k = f"{mfl.fq}|{VF_ROLES}|handler covers the validators' exceptions"
+        if any(_handler_covers(h, {"\0"}) for h in hs):
+            rep.ok("C13.R15", k, mod.site(hs[0]), "a handler for Exception: whatever a validator raises is turned into the topmatter warning")
+            continue
+        caught: set[str] = set()
+        for h in hs:
+            caught |= {x.rsplit(".", 1)[-1] for x in _type_names_dotted(h.type)}
+
+        def covered(cls: str) -> bool:
+            chain = EXC_PARENTS.get(cls)
+            if chain is None:
+                raise Unsupported(f"exception class {cls} not in the small hierarchy table")
+            return bool(caught & set(chain))
+
+        validators = {f.fq: f for f in custom_validators(corpus).values()}
+        for f in corpus.all_functions():
+            if not f.is_lambda and f.module.name == dcv and f.name not in ("validate_field", "validate_fields"):
+                validators.setdefault(f.fq, f)
+        problems = []
+        witness = None
+        for fq, f in sorted(validators.items()):
+            for n in f.local_nodes():
+                if isinstance(n, ast.Raise) and n.exc is not None:
+                    e = n.exc.func if isinstance(n.exc, ast.Call) else n.exc
+                    cls = (dotted(e) or "?").rsplit(".", 1)[-1]
+                    if cls == "?":
+                        raise Unsupported(f"{f.qualname}: raise of an unknown expression")
+                    if not covered(cls):
+                        problems.append(f"{f.qualname} raises {cls}")
+                        witness = witness or (f, n)
+            vname = _value_param(f)
+            if vname is None:
+                continue
+            if not covered("AttributeError"):
+                for a in _unchecked_attr_uses(f, vname):
+                    problems.append(f"`{short(a, 40)}` in {f.qualname} is reached before any type test of the value (AttributeError for a value of another type)")
+                    witness = witness or (f, a)
+        if problems:
+            rep.violation(
+                "C13.R15",
+                k,
+                mod.site(hs[0]),
+                f"the handler only covers {', '.join(sorted(caught))} but " + "; ".join(sorted(set(problems))[:4]) + ": such an invalid front-matter value aborts the parse instead of being ignored with one topmatter warning",
+            )
+        else:
+            rep.ok("C13.R15", k, mod.site(hs[0]), f"except {', '.join(sorted(caught))} covers every explicit raise and no validator uses an attribute of the unchecked value")
+    rep.expect_min("C13.R15", 1, "the handler of the validation try in merge_file_level")
+
+
+def _test_atoms(e: ast.expr) -> list[ast.expr]:
+    if isinstance(e, ast.BoolOp):
+        return [a for v in e.values for a in _test_atoms(v)]
+    if isinstance(e, ast.UnaryOp) and isinstance(e.op, ast.Not):
+        return _test_atoms(e.operand)
+    return [e]
+
+
+@rule("C13.R16")
+def r16_explicit_falsy_docutils_settings_are_kept(corpus: Corpus, rep: Report, tier: str):
+    rep.rule("C13.R16", "docutils create_myst_config: whether a value read from the settings object is passed to the constructor is decided by a sentinel identity/equality/type test, never by the value's truthiness")
+    builder = corpus.func("parsers.docutils_:create_myst_config")
+    if not builder.params:
+        raise Unsupported("create_myst_config takes no settings parameter")
+    settings = builder.params[0]
+
+    def is_read(n: ast.AST) -> bool:
+        return isinstance(n, ast.Call) and dotted(n.func) == "getattr" and len(n.args) >= 2 and isinstance(n.args[0], ast.Name) and n.args[0].id == settings
+
+    reads = [n for n in builder.local_nodes() if is_read(n)]
+    if not reads:
+        raise Unsupported(f"{builder.qualname}: no getattr({settings}, <name>, <default>) read found")
+    vals: set[str] = set()
+    for n in builder.local_nodes():
+        if isinstance(n, (ast.Assign, ast.AnnAssign)) and n.value is not None and is_read(n.value):
+            for t in n.targets if isinstance(n, ast.Assign) else [n.target]:
+                if isinstance(t, ast.Name):
+                    vals.add(t.id)
+        elif isinstance(n, ast.NamedExpr) and is_read(n.value):
+            vals.add(n.target.id)
+
+    def about_value(e: ast.AST) -> bool:
+        return any((isinstance(x, ast.Name) and x.id in vals) or is_read(x) for x in ast.walk(e))
+
+    def is_value(e: ast.AST) -> bool:
+        return (isinstance(e, ast.Name) and e.id in vals) or is_read(e) or (isinstance(e, ast.NamedExpr) and is_read(e.value))
+
+    tests: list[ast.expr] = []
+    for n in builder.local_nodes():
+        if isinstance(n, (ast.If, ast.While, ast.IfExp)):
+            tests.append(n.test)
+        elif isinstance(n, ast.comprehension):
+            tests.extend(n.ifs)
+    n_inst = 0
+    for t in tests:
+        for a in _test_atoms(t):
+            if not about_value(a):
+                continue
+            n_inst += 1
+            k = f"{builder.fq}|condition on the setting value `{short(a, 50)}`"
+            site = builder.module.site(a)
+            if is_value(a) or (isinstance(a, ast.Call) and dotted(a.func) in ("bool", "len") and len(a.args) == 1 and is_value(a.args[0])):
+                rep.violation(
+                    "C13.R16",
+                    k,
+                    site,
+                    "the setting value is tested for truthiness: an explicitly supplied False / 0 / empty collection (e.g. --myst-footnote-sort=no for an option whose default is True) "
+                    "is treated as not supplied, so the docutils front end builds a different configuration than MdParserConfig(**values) / Sphinx for the same values",
+                )
+            elif isinstance(a, ast.Compare) and all(isinstance(o, (ast.Is, ast.IsNot, ast.Eq, ast.NotEq)) for o in a.ops):
+                rep.ok("C13.R16", k, site, "identity/equality test against a sentinel")
+            elif isinstance(a, ast.Call) and dotted(a.func) == "isinstance":
+                rep.ok("C13.R16", k, site, "type test")
+            else:
+                rep.error("C13.R16", f"{site}: condition `{short(a, 60)}` on the setting value is not understood")
+    if n_inst == 0:
+        rep.ok("C13.R16", f"{builder.fq}|no condition on the setting value", builder.module.site(reads[0]), "every value read is passed on")
+    rep.expect_min("C13.R16", 1, "the `is not DOCUTILS_UNSET` test of create_myst_config")
+
+
+RULES = [r1_validator_types, r2_commit_after_validate, r3_no_raw_overwrite, r4_config_writers, r5_invalid_value_path, r6_entry_points_funnel, r7_short_circuit_consistency, r8_truthiness_for_none, r9_comma_lists_split_like_docutils, r10_str_is_not_a_container_of_str, r11_no_raw_conf_reads, r12_topmatter_block_as_markdown_delimits_it, r13_reparse_uses_file_level_config, r14_option_notices_use_the_document_config, r15_topmatter_handler_covers_validator_exceptions, r16_explicit_falsy_docutils_settings_are_kept]
 
 
 # ---------------------------------------------------------------------------
@@ -4188,4 +4415,35 @@ def mutants(corpus: Corpus):
         if top is not gr_ and isinstance(st, (ast.Assign, ast.AnnAssign)):
             ind = _indent(mr, st)
             out.append(Mutant("c13-resolver-uses-the-hoisted-global-ref-domains-only", "C13.R11", mr.rel, splice(mr.src, st, f"_global_domains = {_seg(mr, gr_)}\n{ind}{_seg(mr, st).replace(_seg(mr, top), '_global_domains')}"), expect="reads global config value"))
+    # ---- R15: the front-matter handler narrowed below what the validators raise
+    main = corpus.mod(MAIN)
+    for us in update_sites(corpus):
+        tr15 = _enclosing_try(us.call)
+        if tr15 is None or us.U.module is not main or tr15.handlers[0].type is None:
+            continue
+        ht = tr15.handlers[0].type
+        out.append(Mutant("c13-topmatter-handler-narrowed-to-valueerror", "C13.R15", main.rel, splice(main.src, ht, "ValueError"), expect="handler covers"))
+        for f in custom_validators(corpus).values():
+            vname = _value_param(f)
+            if f.module is not main or vname is None:
+                continue
+            loop = find_node(f, lambda n: isinstance(n, ast.For) and isinstance(n.iter, ast.Call) and isinstance(n.iter.func, ast.Attribute) and isinstance(n.iter.func.value, ast.Name) and n.iter.func.value.id == vname and n in f.node.body)
+            guards = [g for g in f.node.body if isinstance(g, ast.If) and loop is not None and g.lineno < loop.lineno and any(isinstance(c, ast.Call) and dotted(c.func) == "isinstance" for c in ast.walk(g.test))]
+            if loop is not None and guards:
+                out.append(Mutant("c13-topmatter-handler-narrowed+container-test-dropped", "C13.R15", main.rel, _splice_many(main.src, [(ht, "(TypeError, ValueError)")] + [(g, "pass") for g in guards]), expect="is reached before any type test"))
+                break
+        break
+    # ---- R16: explicit falsy docutils settings
+    du = corpus.mod("parsers.docutils_")
+    f = du.func("create_myst_config")
+    rd = find_node(f, lambda n: isinstance(n, ast.Call) and dotted(n.func) == "getattr" and len(n.args) == 3 and isinstance(n.args[0], ast.Name) and n.args[0].id == f.params[0])
+    asg = parent(rd) if rd is not None else None
+    if isinstance(asg, ast.Assign) and isinstance(asg.targets[0], ast.Name):
+        vn = asg.targets[0].id
+        cmp_ = find_node(f, lambda n: isinstance(n, ast.Compare) and isinstance(n.left, ast.Name) and n.left.id == vn and isinstance(parent(n), ast.If))
+        if cmp_ is not None:
+            truthy = vn if isinstance(cmp_.ops[0], (ast.IsNot, ast.NotEq)) else f"not {vn}"
+            out.append(Mutant("c13-docutils-setting-tested-for-truthiness", "C13.R16", du.rel, splice(du.src, cmp_, truthy), expect="condition on the setting value"))
+            out.append(Mutant("c13-docutils-setting-default-none+truthiness", "C13.R16", du.rel, _splice_many(du.src, [(rd.args[2], "None"), (cmp_, truthy)]), expect="condition on the setting value"))
+            out.append(Mutant("c13-docutils-setting-sentinel-test-and-truthiness", "C13.R16", du.rel, splice(du.src, cmp_, f"{_seg(du, cmp_)} and bool({vn})"), expect="condition on the setting value"))
     return out
